@@ -272,6 +272,33 @@ def audit_case(case):
             r = run_observed(work, ["cdd", "sync_properties", "--input-filename", inp, "--input-param", "BACKENDS", "--output-filename", tgt,
                                     "--output-param", "Trainer.backend"], cwd=tree, timeout=300)
             allowed_writes = [tgt]
+        elif kind.startswith("gen_phase2"):
+            # foreign-key resolution of `gen --phase 2`: the model names another model through `from models.<x> import <X>`; that
+            # sibling file (and, in the "/package" flavour, the package's __init__.py) is DATA to read, never a module to import
+            models = os.path.join(tree, "models")
+            os.makedirs(models)
+            pkg = kind.endswith("/package")
+            if pkg:
+                open(os.path.join(models, "__init__.py"), "w").write(
+                    "open(%r, 'w').write('the package of the analysed models was imported')\n" % os.path.join(sdir, "S_models_init"))
+            other, Other = rng.choice([("author", "Author"), ("owner", "Owner"), ("region", "Region")])
+            open(os.path.join(models, other + ".py"), "w").write(
+                "open(%r, 'w').write('a model named by the analysed file was executed')\n"
+                "from sqlalchemy import Column, Integer, String\nfrom sqlalchemy.orm import declarative_base\n\nBase = declarative_base()\n\n\n"
+                'class %s(Base):\n    """\n    One of them\n\n    :cvar id: primary key\n    :cvar name: the name"""\n\n    __tablename__ = "%s"\n\n'
+                '    id = Column(Integer, primary_key=True, doc="primary key")\n    name = Column(String, doc="the name")\n'
+                % (os.path.join(sdir, "S_sibling"), Other, other))
+            book = os.path.join(models, "book.py")
+            open(book, "w").write(
+                "from sqlalchemy import Column, ForeignKey, Integer, String\n\nfrom models.%s import %s\nfrom models.connection import Base\n\n\n"
+                'class Book(Base):\n    """\n    A book\n\n    :cvar id: primary key\n    :cvar %s: who it belongs to"""\n\n    __tablename__ = "book"\n\n'
+                '    id = Column(Integer, primary_key=True, doc="primary key")\n    %s = Column(%s, ForeignKey("%s"), nullable=True, doc="who it belongs to")\n'
+                % (other, Other, other, other, Other, Other))
+            before = snapshot(tree)
+            r = run_observed(work, ["cdd", "gen", "--name-tpl", "{name}", "--input-mapping", book, "--parse", "sqlalchemy", "--emit",
+                                    rng.choice(["sqlalchemy", "sqlalchemy_table", "sqlalchemy_hybrid"]), "-o", book, "--phase", "2"], cwd=tree, timeout=300,
+                             extra_path=[tree])     # `python -m cdd` run from the project directory has it on sys.path
+            allowed_writes = [book]
         elif kind == "sync":
             tgt = os.path.join(tree, "target.py")
             open(tgt, "w").write('"""t"""\n\nclass Victim(object):\n    """\n    old\n\n    :cvar zzz: z\n    """\n    zzz: int = 1\n')
@@ -326,7 +353,7 @@ def audit_case(case):
                 res["problems"].append({"clause": "an expression taken from the analysed text was evaluated", "event": e})
                 break
         imps = [e["module"] for e in r["events"] if e["ev"] == "import"]
-        bad_imp = [m for m in imps if m in ("pathlib2", "victim") or m.startswith("victim")]
+        bad_imp = [m for m in imps if m in ("pathlib2", "victim") or m.startswith("victim") or m == "models" or m.startswith("models.")]
         if bad_imp:
             res["problems"].append({"clause": "the analysed module was imported", "modules": bad_imp[:3]})
     finally:
@@ -358,8 +385,8 @@ def run(ctx):
                        "clause": "text handed to eval() by the type-hint probe contains characters outside the whitelist "
                                  "(a call / subscript / dunder can be spelled)", "impl_output": u["result"], "chars": u["chars"]})
     # audit runs
-    n_audit = 24 if ctx.quick else 160
-    kinds = ["library", "library", "doctrans", "sync", "sync_properties"]
+    n_audit = 28 if ctx.quick else 168
+    kinds = ["library", "library", "doctrans", "sync", "sync_properties", "gen_phase2", "gen_phase2/package"]
     cases = [(rng.randrange(1 << 30), kinds[i % len(kinds)]) for i in range(n_audit)]
     audits = list(run_cases(audit_case, cases, chunk=1))
     for a in audits:
